@@ -17,6 +17,7 @@ DECIDED = ("R1 dispatch: no checker -> all six piece generators without check re
            "R4 pseudo_legals of each piece type is its lookup & mask; R5 en passant: the capture is generated iff the target is in the mask and, with both pawns removed and the target filled, "
            "no enemy rook/queen or bishop/queen attacks the king through rook_moves/bishop_moves of that occupancy and no enemy knight or other pawn attacks it; candidates are the mover's pawns "
            "on the capture rank and adjacent files, pinned or not; R6 the promotion flag is `source rank == the mover's seventh rank`.")
+DECIDED = DECIDED + ' R6 (numbered apart from the clause above) premise re-run here: the cached `checkers` / `pinned` sets the generator filters by are computed exactly, from scratch and incrementally (C03.R3, R5, R6).'
 NOT_DECIDED = ("which squares actually come out on a given position: the meaning of the bitboard formulas on real boards is not decided statically (the lookups themselves are C08/C09); "
                "'each exactly once' relies on C10's entry list semantics")
 EXPLANATION = ("K4 path summaries with the generic-iteration abstraction: for each generator the iteration domain, the pushed entry and its guards are extracted as terms and compared, "
